@@ -12,7 +12,7 @@ import gc
 import weakref
 
 from .. import env  # noqa: F401
-from ..core import Ctx, exc_site
+from ..core import Ctx, WatchdogTimeout, exc_site, watchdog
 
 import urwid
 from urwid import signals as usig
@@ -391,10 +391,25 @@ class Spec:
         self.cap = cap
 
     def configs(self, tier):
-        return ["signals"]
+        # "predisc": every sender has been disconnected from before anything was connected to it (the 'disconnect first, then connect' idiom);
+        # the canonical state cannot tell that apart from a fresh sender, so it is a start configuration of its own
+        return ["signals", "predisc"]
 
     def build(self, cfg):
-        return State(self.cap)
+        st = State(self.cap)
+        if cfg == "predisc":
+            for sname, names in (("S1", ("a", "b")), ("S2", ("a",))):
+                for nm in names:
+                    urwid.disconnect_signal(st.senders[sname], nm, st.make_fn(-1, "plain"))
+                    urwid.disconnect_signal_by_key(st.senders[sname], nm, usig.Key())
+        # senders that nothing was connected to have no handlers: a table that already holds some is shared with earlier objects
+        st.leak = None
+        for sname, sender in st.senders.items():
+            tab = getattr(sender, usig.Signals._signal_attr, None)
+            if tab and any(tab.values()):
+                st.leak = f"a brand-new sender {sname} already has handlers for {sorted(k for k, v in tab.items() if v)} (a handler table shared between senders)"
+                tab.clear()  # (keeps the run finite: the table would grow with every state built in this process)
+        return st
 
     def ops(self, cfg, st: State):
         ops = []
@@ -428,8 +443,20 @@ class Spec:
         return st.canon()
 
     def apply(self, cfg, st: State, op, ctx: Ctx, hist):
+        try:
+            with watchdog(3):
+                return self._apply(cfg, st, op, ctx, hist)
+        except WatchdogTimeout:
+            st.frames.clear()
+            ctx.violation("terminates", f"C14/terminates/{op[0]}", {"cfg": cfg, "hist": hist + (op,)}, f"{op!r} did not return within 3 s")
+            return False
+
+    def _apply(self, cfg, st: State, op, ctx: Ctx, hist):
         st.ctx = None if ctx.muted else ctx
         st.case = {"hist": hist + (op,)}
+        if getattr(st, "leak", None):
+            st.V("sender-isolation", cfg, st.leak)
+            st.leak = None
         ctx.count("evaluations")
         k = op[0]
         before = st.canon()[0]
@@ -563,7 +590,7 @@ def registration_task(task, ctx: Ctx):
 def run(tier, R):
     cap, depth = (3, 5) if tier == "quick" else (4, 5)
     spec = Spec(cap)
-    res = R.bfs(spec, depth=depth, max_states=None)
+    res = R.bfs(spec, depth=depth, max_states=700_000 if tier == "quick" else 12_000_000)  # (the unchanged tree has ~300 000 / ~5 000 000 states: the cap only ends runs on broken trees)
     R.run_tasks(registration_task, [((None,),), ((["c"],),), ((["a"],),)], recheck=0.0)
     cov = {
         "states": res["states"],
@@ -572,12 +599,12 @@ def run(tier, R):
         "evaluations": res["transitions"],
         "distinct_nontrivial": len(R.ctx.sets.get("nontrivial", ())),
         "distinct_outcomes": len(R.ctx.sets.get("outcomes", ())),
-        "rule": f"BFS depth {depth} over connect(32 variants: behaviour x argument style)/connect same fn twice/disconnect by key/by args/"
+        "rule": f"BFS depth {depth} from two start configurations (fresh senders; senders already disconnected-from once) over connect(32 variants: behaviour x argument style)/connect same fn twice/disconnect by key/by args/"
         f"missing/emit/kill weak arg/drop sender/unregistered name, <= {cap} live connections; state = complete handler lists read from "
         "the senders + liveness; non-trivial = distinct (state, emit) with >= 1 handler call; outcomes = distinct (behaviours at start, "
         "removed during emit, call sequence); plus every class shape with <= 2 bases out of {declares a, declares b, metaclass without signals, plain mixin} x own signals x one more "
         "level of subclassing: connect_signal accepts a name iff a class of the MRO declares it",
-        "exhaustive": True,
+        "exhaustive": not res["capped"],
         "bfs_levels": res["levels"],
         "bound": {"depth": depth, "max_live_connections": cap, "recursion_depth": 1},
     }
